@@ -33,7 +33,7 @@ TRUSTED = ["block specification Spec/BlockSpec.v (written from doc/lz4_Block_for
 ASSUMPTIONS = ["buffers do not wrap the address space", "fixed-size LZ4_memcpy is load-then-store",
                "in-place decoding is exercised only for blocks with compressedSize < decompressedSize (documented presumption)"]
 
-DICT_SIZES = [0, 1, 7, 8, 100, 4000, 65535, 65536, 70000]
+DICT_SIZES = [0, 1, 7, 8, 100, 4000, 65534, 65535, 65536, 70000]
 
 def build(tier):
     return {"libs": {"fast1": build_lib("dec_fast1", flags=["-DLZ4_FAST_DEC_LOOP=1"]),
@@ -51,6 +51,8 @@ def gen_cases(tier, seed):
         cases.append({"kind": "stream", "bseed": rng.randrange(1 << 48), "geom": declib2.GEOMS2[i % len(declib2.GEOMS2)], "big": (i % 11 == 10)})
     for i in range(nc):
         cases.append({"kind": "converse", "bseed": rng.randrange(1 << 48), "count": 60})
+    for i in range({"quick": 12, "search": 24, "thorough": 80}[tier]):
+        cases.append({"kind": "edge64k", "bseed": rng.randrange(1 << 48)})
     for i in range({"quick": 6, "search": 12, "thorough": 40}[tier]):
         cases.append({"kind": "inplace", "bseed": rng.randrange(1 << 48), "count": 150})
     cases.append({"kind": "f5", "bseed": 0})
@@ -184,12 +186,15 @@ def check_converse(st, rng, res, blk, hist, Dlen):
             else:
                 res["stats"]["conv_match_partial"] += 1
 
-def check_stream(st, rng, res, geom, big):
+def check_stream(st, rng, res, geom, big, edge=False):
     maxblock = rng.choice([300, 1000, 4000]) if not big else 70000
     nblocks = rng.choice([3, 6, 12]) if geom != "ring" else (rng.choice([40, 80]) if not big else 6)
     if big and geom != "ring":
         nblocks = 4
-    blocks = declib2.gen_stream(rng, geom, nblocks, maxblock, big=big, ringfill=(geom == "ring" and not big))
+    if edge:
+        blocks, maxblock = declib2.gen_edge64k(rng)
+    else:
+        blocks = declib2.gen_stream(rng, geom, nblocks, maxblock, big=big, ringfill=(geom == "ring" and not big))
     # judge: every block must be strictly valid w.r.t. its history, with the generator's content
     for b in blocks:
         D = spec(st["spec"], "strict", b["hist"], b["blk"])
@@ -252,6 +257,8 @@ def run_case(st, case):
             check_valid_block(st, rng, res, blk, D, hist, len(gen_hist), prof, big=big)
     elif kind == "stream":
         check_stream(st, rng, res, case["geom"], case.get("big", False))
+    elif kind == "edge64k":
+        check_stream(st, rng, res, "extchain", True, edge=True)
     elif kind == "converse":
         for j in range(case["count"]):
             hs = rng.choice(DICT_SIZES[:6] + [65535, 65536])
